@@ -92,6 +92,9 @@ def qasm3_expression_op_map(op_name: str, *args) -> Union[float, int, bool]:
         return operator(*args)
     except KeyError as exc:
         raise ValidationError(f"Unsupported / undeclared QASM operator: {op_name}") from exc
+    except (ArithmeticError, TypeError, ValueError) as exc:
+        # division by zero, negative shift count, operand of the wrong type, ...
+        raise ValidationError(f"Invalid operands {args} for QASM operator {op_name}: {exc}") from exc
 
 
 def u3_gate(
